@@ -107,6 +107,12 @@ def check(chk):
             chk.ob("OWN-2", "%s has only deferred in-edges" % scope, deferred, u.where(),
                    detail="a direct call from handler-reachable code would drain the queue inside a dispatch",
                    construct=u.ident, text="use of %s: %s" % (name, short(u.parent, 80)))
+            if deferred and call_attr(u.parent) == "partial" and u.func is not None:
+                # the bound draining callable may only be handed to the loop/clock; stored anywhere else it can be
+                # invoked synchronously later (e.g. DelayManager.run_now calling a stored record from inside a handler)
+                sink_ok, why = _flows_only_to_scheduler(u.func.node, u.parent)
+                chk.ob("OWN-2", "the draining callable built in %s flows only into the scheduler" % u.scope, sink_ok, u.where(),
+                       detail=why, construct=u.ident, text="draining partial escapes: " + why)
         chk.require(found >= 1, "C01: no registration site of %s found" % scope)
     stop_roots = {("mpf/core/machine.py", "MachineController._run_loop"), ("mpf/core/machine.py", "MachineController._crash_shutdown"),
                   ("mpf/core/machine.py", "MachineController.shutdown")}
@@ -229,6 +235,37 @@ def check(chk):
 
     # ------------------------------------------------------------- DOM-3
     _callbacks(chk, f_pe, f_rhs, f_peq, f_pqe)
+
+
+SCHEDULERS = {"schedule_once", "schedule_interval", "call_soon", "call_later", "call_at", "add_done_callback"}
+
+
+def _parent_of(root, node):
+    for x in ast.walk(root):
+        for ch in ast.iter_child_nodes(x):
+            if ch is node:
+                return x
+    return None
+
+
+def _flows_only_to_scheduler(fn, value):
+    par = _parent_of(fn, value)
+    if isinstance(par, ast.Call) and call_attr(par) in SCHEDULERS and value in par.args:
+        return True, ""
+    if isinstance(par, ast.keyword):
+        gp = _parent_of(fn, par)
+        if isinstance(gp, ast.Call) and call_attr(gp) in SCHEDULERS:
+            return True, ""
+    if isinstance(par, ast.Assign) and len(par.targets) == 1 and isinstance(par.targets[0], ast.Name):
+        nm = par.targets[0].id
+        for x in ast.walk(fn):
+            if isinstance(x, ast.Name) and x.id == nm and isinstance(x.ctx, ast.Load):
+                p2 = _parent_of(fn, x)
+                if isinstance(p2, ast.Call) and call_attr(p2) in SCHEDULERS and x in p2.args:
+                    continue
+                return False, "local `%s` holding the draining callable is also used in `%s`" % (nm, short(p2, 70))
+        return True, ""
+    return False, "draining callable used in `%s`" % short(par, 70)
 
 
 def _alias_of_registry(fn, e):
@@ -607,6 +644,8 @@ def battery():
         M("callback inside handler loop", E, "            if queue.waiter:\n                queue.event = asyncio.Event()\n                await queue.event.wait()\n", "            if queue.waiter:\n                queue.event = asyncio.Event()\n                await queue.event.wait()\n            if callback:\n                callback(**kwargs)\n", "DOM-3"),
         M("fast path ignores callback", E, "if not callback and not self.monitor_events and event not in self.registered_handlers:", "if not self.monitor_events and event not in self.registered_handlers:", "DOM-1"),
         M("foreign module mutates registry", "mpf/core/bcp/bcp_interface.py", "self.machine.events.registered_handlers.get(", "self.machine.events.registered_handlers.pop(", "OWN-3"),
+        M("draining callable stored in the delay record", "mpf/core/delays.py", "        self.delays[name] = (self.machine.clock.schedule_once(\n            partial(self._process_delay_callback, name, callback, **kwargs),\n            ms / 1000.0), partial(callback, **kwargs))", "        delay_callback = partial(self._process_delay_callback, name, callback, **kwargs)\n        self.delays[name] = (self.machine.clock.schedule_once(delay_callback, ms / 1000.0), delay_callback)", "OWN-2"),
+        M("twin: draining callable via local", "mpf/core/delays.py", "        self.delays[name] = (self.machine.clock.schedule_once(\n            partial(self._process_delay_callback, name, callback, **kwargs),\n            ms / 1000.0), partial(callback, **kwargs))", "        delay_callback = partial(self._process_delay_callback, name, callback, **kwargs)\n        self.delays[name] = (self.machine.clock.schedule_once(delay_callback, ms / 1000.0), partial(callback, **kwargs))", None),
         M("foreign module dispatches", "mpf/core/delays.py", "        self.machine.events.process_event_queue()", "        self.machine.events._process_event('x', None)\n        self.machine.events.process_event_queue()", "OWN-1"),
         M("drain scheduled after append", E, "        if not self.event_queue and hasattr(self.machine.clock, \"loop\"):\n            self.machine.clock.loop.call_soon(self.process_event_queue)\n\n        posted_event = PostedEvent(event, ev_type, callback, kwargs)", "        posted_event = PostedEvent(event, ev_type, callback, kwargs)\n        self.event_queue.append(posted_event)\n        if not self.event_queue and hasattr(self.machine.clock, \"loop\"):\n            self.machine.clock.loop.call_soon(self.process_event_queue)\n", "DOM-1"),
         # twins: behaviour-preserving rewrites must stay silent
